@@ -236,6 +236,9 @@ class SR:
     def _cmp(self, o, f):
         if isinstance(o, rnp.ndarray):
             return NotImplemented
+        if isinstance(o, (float, rnp.floating)) and math.isinf(float(o)):
+            # every real is finite: comparison with +-inf is a constant
+            return SB(z3.BoolVal(bool(f(0.0, float(o)))))
         try:
             return SB(f(self.t, tz(o)))
         except TypeError:
